@@ -13,6 +13,7 @@ import (
 	"fmt"
 	"io"
 	"math/bits"
+	"sort"
 	"testing"
 
 	"pgregory.net/rapid"
@@ -183,11 +184,155 @@ func c18Case(t *rapid.T, rec *vh.Recorder) {
 	rec.Case(d.String(), d.n() >= 8 && st.mergeOfMerges, cl...)
 }
 
+const c18LongRule = "long-history shape: root <- linear chain of 260-520 (quick) / 300-900 (thorough) commits (its parent closure is a prolly tree of >= 2 levels), 1-2 short branches of 1-9 commits forking at the root or at one of the first 30 chain commits, each short tip merged with the long history in BOTH parent orders (short first / long first), a side commit on a short branch, then 3-9 generated commits with 1-3 parents drawn from those merges, the tips, a deep chain commit and interior short commits (children, merges of merges, octopus); built with Database.Commit, re-opened at a drawn position and before the second read-back. Oracle as in the small DAGs (own adjacency lists, word-array ancestor sets): Height() of EVERY commit; for every commit off the chain, the root, the chain tip, a deep chain commit and 4 sampled chain commits the parent list and the closure iterated in full == exactly the proper ancestors with their heights (commit itself absent, strictly descending, Count), address == hash of the stored value. Non-trivial: some merge has parents whose closure trees have different numbers of levels and whose first parent has an ancestor the deeper parent lacks; distinct by the shape descriptor."
+
+// c18CheckBigCommit compares commit i of a long-history DAG with the model; full=false checks
+// height and address only.
+func c18CheckBigCommit(ctx context.Context, t *rapid.T, d *verifBigDag, b *verifBigBuilt, h []uint64, anc []verifBits, i int, full bool) (levels int) {
+	c, err := LoadCommitAddr(ctx, b.db, b.addrs[i])
+	if err != nil {
+		t.Fatalf("commit %d (%s) cannot be loaded: %v", i, b.addrs[i], err)
+	}
+	if c.Height() != h[i] {
+		t.Fatalf("commit %d parents %v: Height() = %d, want %d (%s)", i, d.parents[i], c.Height(), h[i], d.desc)
+	}
+	if !full {
+		return 0
+	}
+	vhash, err := c.NomsValue().Hash(b.db.Format())
+	if err != nil || vhash != b.addrs[i] {
+		t.Fatalf("commit %d: hash of the stored value is %s (err %v), address at creation was %s", i, vhash, err, b.addrs[i])
+	}
+	ps, err := GetCommitParents(ctx, b.db, c.NomsValue())
+	if err != nil || len(ps) != len(d.parents[i]) {
+		t.Fatalf("commit %d: GetCommitParents = %d parents, err %v; want %v", i, len(ps), err, d.parents[i])
+	}
+	for k, p := range ps {
+		if p.Addr() != b.addrs[d.parents[i][k]] {
+			t.Fatalf("commit %d: parent #%d is %s, want commit %d", i, k, p.Addr(), d.parents[i][k])
+		}
+	}
+	want := map[hash.Hash]uint64{}
+	idx := map[hash.Hash]int{}
+	for _, a := range anc[i].list() {
+		want[b.addrs[a]] = h[a]
+		idx[b.addrs[a]] = a
+	}
+	sm := c.NomsValue().(types.SerialMessage)
+	cc, err := NewParentsClosure(ctx, c, sm, b.db, b.db.nodeStore())
+	if err != nil {
+		t.Fatalf("NewParentsClosure(%d): %v", i, err)
+	}
+	if cc.IsEmpty() {
+		if len(want) != 0 {
+			t.Fatalf("commit %d parents %v has an empty parent closure, want %d ancestors (%s)", i, d.parents[i], len(want), d.desc)
+		}
+		return 0
+	}
+	it, err := cc.IterAllReverse(ctx)
+	if err != nil {
+		t.Fatalf("closure IterAllReverse(%d): %v", i, err)
+	}
+	got := map[hash.Hash]uint64{}
+	var prev prolly.CommitClosureKey
+	for {
+		k, _, err := it.Next(ctx)
+		if err == io.EOF {
+			break
+		}
+		if err != nil {
+			t.Fatalf("closure iteration of commit %d: %v", i, err)
+		}
+		if prev != nil && !k.Less(ctx, prev) {
+			t.Fatalf("closure of commit %d is not strictly descending at (%d,%s)", i, k.Height(), k.Addr())
+		}
+		prev = append(prolly.CommitClosureKey(nil), k...)
+		got[k.Addr()] = k.Height()
+	}
+	if _, self := got[b.addrs[i]]; self {
+		t.Fatalf("commit %d is in its own parent closure", i)
+	}
+	var missing []int
+	for a, hh := range want {
+		gh, ok := got[a]
+		if !ok {
+			missing = append(missing, idx[a])
+		} else if gh != hh {
+			t.Fatalf("closure of commit %d lists ancestor commit %d with height %d, want %d (%s)", i, idx[a], gh, hh, d.desc)
+		}
+	}
+	if len(missing) > 0 {
+		sort.Ints(missing)
+		if len(missing) > 12 {
+			missing = missing[:12]
+		}
+		t.Fatalf("closure of commit %d (parents %v) has %d entries, want %d proper ancestors; missing e.g. commits %v (%s)", i, d.parents[i], len(got), len(want), missing, d.desc)
+	}
+	for a := range got {
+		if _, ok := want[a]; !ok {
+			t.Fatalf("closure of commit %d (parents %v) lists %s which is not an ancestor (%s)", i, d.parents[i], a, d.desc)
+		}
+	}
+	if n, err := cc.Count(); err != nil || n != len(want) {
+		t.Fatalf("closure of commit %d: Count() = %d,%v want %d", i, n, err, len(want))
+	}
+	return cc.Height()
+}
+
+func c18LongCase(t *rapid.T, rec *vh.Recorder) {
+	ctx := context.Background()
+	d := verifGenBigDag(t)
+	b := verifBuildBigDag(t, ctx, d)
+	h, anc := d.heights(), d.ancestors()
+	focus := map[int]bool{}
+	for _, i := range d.focus {
+		focus[i] = true
+	}
+	levels := map[int]int{}
+	for pass := 0; pass < 2; pass++ {
+		for i := 0; i < d.n(); i++ {
+			if lv := c18CheckBigCommit(ctx, t, d, b, h, anc, i, focus[i]); focus[i] {
+				levels[i] = lv
+			}
+		}
+		b.reopen()
+	}
+	// non-trivial: a merge whose parents' closures differ in tree levels and whose first parent
+	// has an ancestor the deeper parent lacks
+	nt, maxLv, entries := false, 0, 0
+	for _, x := range d.extras {
+		ps := d.parents[x]
+		entries += anc[x].count()
+		for _, p := range ps[1:] {
+			if focus[ps[0]] && focus[p] && levels[p] > levels[ps[0]] {
+				for _, a := range anc[ps[0]].list() {
+					if !anc[p].has(a) && a != p {
+						nt = true
+						break
+					}
+				}
+			}
+		}
+	}
+	for _, lv := range levels {
+		if lv > maxLv {
+			maxLv = lv
+		}
+	}
+	rec.Evals(2*d.n() - 1)
+	rec.Class("closure_entries_compared", 2*entries)
+	rec.Case(d.desc, nt, fmt.Sprintf("closure_tree_levels=%d", maxLv), fmt.Sprintf("short_branches=%d", len(d.shortLen)))
+}
+
 func TestVerif_C18(t *testing.T) {
 	rec := vh.NewRecorder("C18", "datas", "exploration", c18Rule,
 		"commits carry explicit dates and distinct descriptions, so distinct DAG nodes never share an address",
 		"the committed value is a types.String (store/datas does not interpret it)",
 		"re-open = a new view over the same in-memory chunks.TestStorage (file-backed re-open is exercised by the doltdb part)")
 	defer rec.Write(t)
+	recLong := vh.NewRecorder("C18", "datas-long-history", "exploration", c18LongRule,
+		"closures are compared in full only for the commits off the chain, the root, the chain tip, a deep chain commit and 4 sampled chain commits (every commit's height is compared)")
+	defer recLong.Write(t)
 	vh.Check(t, "dag", 8000, 2000, func(rt *rapid.T) { c18Case(rt, rec) })
+	vh.Check(t, "long", 150, 60, func(rt *rapid.T) { c18LongCase(rt, recLong) })
 }
